@@ -65,8 +65,9 @@ def random_walk(R, n, full16=True):
     return ops
 
 
-def line(qcap, ops):
-    return '|'.join(['REG %d' % qcap] + ops)
+def line(qcap, ops, noerr=False):
+    """noerr: the context is initialised without an error callback (interface->error == NULL)"""
+    return '|'.join(['%s %d' % ('REGN' if noerr else 'REG', qcap)] + ops)
 
 
 def parse_out(out):
